@@ -47,6 +47,9 @@ func Gen(seed int64, idx int, prof string) Case {
 	theme := Themes[idx%len(Themes)]
 	if prof == "c15" {
 		theme = pick(r, "adapter-faults", "adapter-faults", "retry-later", "batchcall-faults", "expired-action", "mixed", "object-faults", "none")
+		if idx%16 == 5 {
+			theme = "deferred-plus-backoff"
+		}
 	}
 	n := 1 + r.Intn(12)
 	if r.Intn(10) < 4 {
@@ -304,6 +307,34 @@ func Gen(seed int64, idx int, prof string) Case {
 				kinds = []string{"ok", "ok", "retry", "fatal", "reset", "422"}
 			}
 			adapterFaults(kinds...)
+		}
+	case "deferred-plus-backoff":
+		// one retry round holds an object the server deferred with a Retry-After longer than
+		// lfs.transfer.maxretrydelay and objects that merely failed retriably: the latter must not wait for the former
+		c.Upload = false
+		c.Objs = c.Objs[:0]
+		k := 2 + r.Intn(4)
+		for i := 0; i < k; i++ {
+			c.Objs = append(c.Objs, Obj{Oid: randOid(r), Size: int64(1 + r.Intn(5000)), Adds: 1})
+		}
+		c.AddOrder = nil
+		for i := range c.Objs {
+			c.AddOrder = append(c.AddOrder, i)
+		}
+		c.BatchSize = k + r.Intn(3)
+		c.MaxRetries = 2 + r.Intn(2)
+		c.MaxDelay = 1
+		c.AddGapUs = 0
+		c.Watchers = r.Intn(2)
+		c.SlowWatch = false
+		c.ObjBatch = map[string][]string{}
+		c.ExtraUnknown = map[int]string{}
+		c.BatchCalls = nil
+		c.Adapter = map[string][]string{c.Objs[0].Oid: {"later:4"}}
+		for i := 1; i < k; i++ {
+			if i == 1 || r.Intn(2) == 0 {
+				c.Adapter[c.Objs[i].Oid] = []string{"retry"}
+			}
 		}
 	case "adapter-begin-error":
 		c.BeginError = true
